@@ -139,4 +139,29 @@ func lineBetweenCurves(tols []float64) fw.Family {
 	}, tols))
 }
 
+// almostClosedArcs: one arc that runs almost all the way round (large flag), its end points closer
+// together than the tolerance, and the short arc between the same points for comparison.
+func almostClosedArcs(tols []float64) fw.Family {
+	type geo struct{ rx, ry, rot float64 }
+	geos := []geo{{1, 1, 0}, {10, 10, 0}, {3, 3, 0}}
+	gaps := []float64{0.002, 0.0005} // central angle between the end points
+	th0s := []float64{0, 0.7, 2.5, 4.6}
+	rad := []int{len(geos), len(gaps), len(th0s), 2, 2}
+	return labelled("arc-almost-closed", pathFamily("circular arcs whose end points are 0.0005..0.002 rad apart, the long and the short way round, 3 radii x 4 start angles x both directions", oracle.Prod(rad...), func(i int64) ([]oracle.Subpath, bool) {
+		d := oracle.Digits(i, rad...)
+		g := geos[d[0]]
+		a0, a1 := th0s[d[2]], th0s[d[2]]+gaps[d[1]]
+		large, sweep := d[3] == 1, d[4] == 1
+		if large == sweep { // sweep (increasing angle) the short way from a0 to a1; the long way needs the reverse
+			a0, a1 = a1, a0
+		}
+		if !sweep {
+			a0, a1 = a1, a0
+		}
+		p0 := oracle.EllipseAt(oracle.Pt{}, g.rx, g.ry, 0, a0)
+		p1 := oracle.EllipseAt(oracle.Pt{}, g.rx, g.ry, 0, a1)
+		return curvefam.One(oracle.MkArc(p0, g.rx, g.ry, g.rot, large, sweep, p1)), true
+	}, tols))
+}
+
 var _ = fmt.Sprint
